@@ -454,6 +454,11 @@ class GrammarGen:
                     if self.chance(0.3) and len(below) >= 1:
                         alts.append(Seq([Str(self.pick(self.o["lits"])), Ref(self.pick(below))]))
                     body = Alt(alts) if len(alts) > 1 else alts[0]
+                if kind == "common" and i > 0 and self.chance(0.3):
+                    # recursion back to this or an earlier rule (possibly an alias rule), guarded by a terminal
+                    body = Seq([body, Opt(Seq([Str("("), Asg("rec", "=", Ref(self.pick(names[:i + 1]))), Str(")")]))])
+                if kind != "common" and below and self.chance(0.12):
+                    body = Ref(self.pick(below))          # an alias rule: the body is a single rule reference
                 r = RuleD(n, body)
                 if self.chance(self.o["modifiers"]):
                     r["skipws"] = self.pick(["on", "off", "off"])
